@@ -43,8 +43,41 @@ func init() {
 func c06Run(c *core.Ctx, i int) {
 	p := c.State.(*srcPool)
 	src, origin := pickSource(c, p, i)
+	if i%20 == 7 {
+		// unusual characters (NUL, other control characters, BOM, line separators, lone CR) at a
+		// line end, inside a comment or at the end of the text: accepted or not, nothing may vanish
+		src, origin = c06Unusual(c, src), "unusual-characters"
+	}
 	c.Cover("origin", origin)
 	c06One(c, src, origin, i)
+}
+
+var c06Chars = []string{"\x00", "\x00", "\x01", "\x7f", "\v", "\f", "\r", "\u00a0", "\u0085", "\u2028", "\ufeff", "\x1a", "\x00\x00"}
+
+func c06Unusual(c *core.Ctx, src string) string {
+	r := c.Rng
+	ch := c06Chars[r.Intn(len(c06Chars))]
+	lines := strings.SplitAfter(src, "\n")
+	k := r.Intn(len(lines))
+	line := strings.TrimSuffix(lines[k], "\n")
+	nl := lines[k][len(line):]
+	switch r.Intn(5) {
+	case 0: // between the statement and the line end
+		lines[k] = line + ch + nl
+	case 1: // inside a trailing comment
+		if strings.Contains(line, "\"") || strings.TrimSpace(line) == "" || strings.HasSuffix(strings.TrimSpace(line), "[") || strings.HasSuffix(strings.TrimSpace(line), "{") {
+			lines[k] = line + nl + "// a" + ch + "b\n"
+		} else {
+			lines[k] = line + " // a" + ch + "b" + nl
+		}
+	case 2: // on a line of its own, followed by more program text
+		lines[k] = line + nl + ch + "\n"
+	case 3: // at the very end
+		return src + ch
+	default: // in front of a statement
+		lines[k] = ch + line + nl
+	}
+	return strings.Join(lines, "")
 }
 
 // pickSource draws from the corpus pool or (when available) from the generator.
@@ -69,6 +102,11 @@ func c06One(c *core.Ctx, src, origin string, i int) {
 	if f != src {
 		c.Distinct(src)
 	}
+	// 0. the tokens the comparison below relies on tile the whole text (nothing between or after them)
+	if !checkTokens(c, src) || !checkTokens(c, f) {
+		return
+	}
+	c.Event("token_tilings_checked", 2)
 	// 1. token sequence
 	a, b := sigTokens(src), sigTokens(f)
 	c.Event("token_sequences_compared", 1)
